@@ -26,9 +26,44 @@ from .. import tlc, tracecheck
 from ..core import Violation
 from ..tlaparse import parse_simulation_file, to_json
 
+SWITCHES = ("StrictLineCount", "AtomicDecompress", "AtomicVerifiedTable", "DropTableOnRewrite", "ValidateReusedTable", "DetectTruncation")
 BODY = ("G", "Th", "Te", "J", "E")
 CORE = ("doc", "arch", "tmp", "off", "newer")
 _FX = None
+
+
+def repaired_switches():
+    """VERIF_C14_REPAIRED=all | comma separated switch names: check a tree in which these repairs were made (the cfg files
+    describe the tree as it is; once a repair is committed to /repo the switch is set to TRUE in the cfg files instead)."""
+    v = os.environ.get("VERIF_C14_REPAIRED", "").strip()
+    if not v:
+        return ()
+    names = SWITCHES if v == "all" else tuple(x.strip() for x in v.split(","))
+    for n in names:
+        if n not in SWITCHES:
+            raise tlc.MachineryError("unknown switch %r in VERIF_C14_REPAIRED" % n)
+    return names
+
+
+def _switch_cfg(text):
+    for n in repaired_switches():
+        text = text.replace("  %s = FALSE" % n, "  %s = TRUE" % n)
+    return text
+
+
+def _prepared(name, cfg):
+    wd = tlc.prepare_workdir("CorpusPrep", name)
+    path = os.path.join(wd, cfg)
+    with open(path, "r", encoding="utf-8") as f:
+        text = f.read()
+    with open(path, "w", encoding="utf-8") as f:
+        f.write(_switch_cfg(text))
+    return wd
+
+
+def _trace_cfg_text():
+    with open(os.path.join(tlc.SPECS, "CorpusPrep", "TraceCorpusPrep.cfg"), "r", encoding="utf-8") as f:
+        return _switch_cfg(f.read())
 
 
 def fixture():
@@ -141,6 +176,11 @@ def resolve_crash(crash, ev):
         return [{"kind": crash["kind"], "event": 1 + int(crash["frac"] * n) % n}] if n else []
     if "event" in crash:
         return [{"kind": crash["kind"], "event": crash["event"]}] if 1 <= crash["event"] <= n else []
+    if "match" in crash:  # first observed call at which the directory looks like this
+        for k in range(1, n + 1):
+            if all(ev[k - 1][0][f] == v for f, v in crash["match"].items()):
+                return [{"kind": crash["kind"], "event": k}]
+        return []
     cand = [k for k in range(1, n + 1) if _seg_of(ev, k) == crash["seg"]]
     if not cand:
         return []  # e.g. the state after the last change of the directory: no later observed call to crash at
@@ -182,7 +222,7 @@ def _detail(r):
 # ---------------------------------------------------------------------------------------------------
 def cases_from_tlc(ctx, out, num, depth):
     fx = fixture()
-    wd = tlc.prepare_workdir("CorpusPrep", "c14sim")
+    wd = _prepared("c14sim", "CorpusPrep.sim.cfg")
     simdir = os.path.join(wd, "sim")
     os.makedirs(simdir)
     res = tlc.run_tlc(wd, "MC_CorpusPrep", "CorpusPrep.sim.cfg", workers=1, simulate={"num": num, "file": os.path.join(simdir, "b")}, depth=depth, seed=ctx.seed + 14, timeout=600)
@@ -269,6 +309,34 @@ CANONICAL = [
 ]
 
 
+DIRECTED = [
+    # name, fmt, tool, uDecl, cDecl, init overrides, script kinds, crash
+    ("fresh-download-retry", "bz2", "none", True, True, {}, ["proto", "G"], None),
+    ("fresh-download-tool", "gz", "ok", True, True, {}, ["G"], None),
+    ("wrong-sized-leftovers", "zip", "none", True, True, {"doc": "mid", "arch": "Th", "tmp": "stale", "off": "O"}, ["Th", "G"], None),
+    ("killed-after-open-undeclared", "gz", "none", False, False, {"arch": "G"}, [], {"kind": "kill", "match": {"doc": "empty"}}),
+    ("interrupted-midway-undeclared", "bz2", "none", False, False, {"arch": "G"}, [], {"kind": "intr", "match": {"doc": "last"}}),
+    ("empty-body-undeclared", "gz", "none", False, False, {}, ["E"], None),
+    ("truncated-gz-undeclared", "gz", "ok", False, False, {"arch": "Te"}, [], None),
+    ("truncated-zst-undeclared", "zst", "none", False, False, {"arch": "Te"}, [], None),
+    ("torn-table-newer", "none", "none", True, False, {"doc": "full", "off": "torn", "newer": True}, [], None),
+    ("killed-table-build-short-body", "none", "none", False, False, {}, ["Th"], {"kind": "kill", "match": {"off": "part", "newer": True}}),
+    ("tar-mtime-stale-table", "tar.gz", "none", True, True, {"doc": "other", "arch": "G", "off": "O", "newer": True}, [], None),
+    ("retries-exhausted", "none", "none", True, False, {}, ["proto"] * 11, None),
+]
+
+
+def directed_cases():
+    fx = fixture()
+    rnd = random.Random(5)
+    cases = []
+    for name, fmt, tool, u, c, over, kinds, crash in DIRECTED:
+        p = {"fmt": fmt, "tool": tool, "uDecl": u, "cDecl": c, "net": "online", "cons": True, "entry": "plain", "testMode": not (u or c), "slash": True}
+        init = dict({"doc": "absent", "arch": "absent", "tmp": "absent", "off": "absent", "newer": False}, **over)
+        cases.append({"id": "dir-" + name, "src": "directed", "p": p, "init": init, "script": [concretize_outcome(k, rnd, fx, fmt) for k in kinds], "crash": crash})
+    return cases
+
+
 def sweep_cases(which, limit=None):
     """Every observed I/O call of canonical cases as crash point, both crash kinds."""
     fx = fixture()
@@ -340,7 +408,7 @@ def run_cases(cases, out, label, sandbox):
             out.add_case({"p": _p(case["p"]), "init": case["init"], "script": case["script"], "crash": cr}, nontrivial=True)
     if not items:
         raise tlc.MachineryError("no traces produced for %s" % label)
-    verdicts = tracecheck.validate("CorpusPrep", "TraceCorpusPrep", "TraceCorpusPrep.cfg", items, name="c14trace", chunk=400, timeout=600)
+    verdicts = tracecheck.validate("CorpusPrep", "TraceCorpusPrep", "TraceCorpusPrep.cfg", items, name="c14trace", chunk=400, timeout=600, cfg_text=_trace_cfg_text())
     out.states += verdicts.n_events
     out.transitions += verdicts.n_events
     out.traces_validated += verdicts.accepted(len(items))
@@ -391,7 +459,7 @@ def run(ctx, out):
     # ---- Leg M
     cfgs = [("CorpusPrep.quick.cfg", 300), ("CorpusPrep.quick2.cfg", 300)] if ctx.quick else [("CorpusPrep.thorough.cfg", 2400), ("CorpusPrep.quick2.cfg", 600)]
     for cfg, to in cfgs:
-        wd = tlc.prepare_workdir("CorpusPrep", "c14mc")
+        wd = _prepared("c14mc", cfg)
         res = tlc.run_tlc(wd, "MC_CorpusPrep", cfg, timeout=to, allow_violation=True)
         out.add_tlc(res)
         if not res.ok:
@@ -402,7 +470,9 @@ def run(ctx, out):
     wd = tlc.prepare_workdir("CorpusPrep", "c14pinned")
     res = tlc.run_tlc(wd, "MC_CorpusPrep", "CorpusPrep.pinned.cfg", timeout=300, allow_violation=True)
     if res.invariant_violated != "ReturnedOK":
-        raise tlc.MachineryError("self-test failed: the model of the current code no longer violates ReturnedOK (switches and code out of step?)")
+        raise tlc.MachineryError("self-test failed: the model of the unrepaired code no longer violates ReturnedOK")
+    if repaired_switches():
+        out.note("repairs assumed in the tree under test: %s" % ", ".join(repaired_switches()))
     if not ctx.quick:
         wd = tlc.prepare_workdir("CorpusPrep", "c14repaired")
         res = tlc.run_tlc(wd, "MC_CorpusPrep", "CorpusPrep.repaired.cfg", timeout=900, allow_violation=True)
@@ -427,6 +497,9 @@ def run(ctx, out):
         out.sample({"source": "random", "id": it["id"], "p": it["p"], "init": it["init"], "runs": [{k: r[k] for k in ("outs", "crash", "end", "exc", "fs", "offOK")} for r in it["runs"]]})
     sw = sweep_cases([ctx.seed % len(CANONICAL)], limit=12) if ctx.quick else sweep_cases(range(len(CANONICAL)))
     items, _ = run_cases(sw, out, "sweep", sandbox)
+    items, unreal = run_cases(directed_cases(), out, "directed", sandbox)
+    if unreal:
+        raise tlc.MachineryError("a directed case did not reach its crash point")
     out.note("leg C2S: %d chains validated by TLC" % out.traces_validated)
 
 
